@@ -4,6 +4,7 @@
 package tars
 
 import (
+	"crypto/tls"
 	"sync/atomic"
 
 	"github.com/TarsCloud/TarsGo/tars/transport"
@@ -56,3 +57,7 @@ func VerifWarmAdapter(s *ServantProxy) *AdapterProxy {
 	adp, _ := s.manager.SelectAdapterProxy(&Message{})
 	return adp
 }
+
+// VerifSetClientTLS installs the TLS configuration that "ssl" endpoints of the communicator's application use - what
+// the <ca>/<cert>/<key> entries of the client configuration would install.
+func VerifSetClientTLS(c *Communicator, conf *tls.Config) { c.app.clientTlsConfig = conf }
